@@ -31,7 +31,10 @@ Walk(id, d, steps, k) ==
   IF k > Len(steps) THEN {}
   ELSE LET d2 == Apply(d, steps[k])
            df == Diff(d2, steps[k].post)
+           \* queries of the coordinator's API (filtered by health, with statistics, dropped only) are reads: no step of the specification
+           dr == IF "postRead" \in DOMAIN steps[k] THEN Diff(d2, steps[k].postRead) ELSE {}
        IN IF df # {} THEN {[id |-> id, k |-> k, a |-> steps[k].a, fields |-> df]}
+          ELSE IF dr # {} THEN {[id |-> id, k |-> k, a |-> "api-read", fields |-> {"state-changed-by-a-read"} \cup dr]}
           ELSE Walk(id, d2, steps, k + 1)
 
 \* states s_0 .. s_n of a behaviour
